@@ -60,6 +60,10 @@ func (s Step) isTx() bool     { return s.Kind == "W" || s.Kind == "U" || s.Kind 
 
 var errSentinel = errors.New("verif: user function asks for rollback")
 
+// faultAbort is the pseudo-class of "an op failed because of an injected I/O
+// fault": not a disagreement, the transaction is rolled back on both sides.
+const faultAbort = "__fault_abort"
+
 // disc describes one disagreement between ffldb and the reference.
 type disc struct {
 	Class string // stable class (part of the violation key)
@@ -77,6 +81,16 @@ type sess struct {
 	in  *inst
 	ref *refdb.DB
 
+	obsBuckets []string // bucket paths the battery observes (default: bucketUniverse)
+	noBlockObs bool     // scenario without block ops: the battery skips the block observations
+	// skipInvalidRegions: parts (b)/(c) do not re-report part (a)'s finding that
+	// out-of-bounds block regions are accepted
+	skipInvalidRegions bool
+
+	fs     *fsim  // I/O recorder / fault injector (parts b, c)
+	preTx  func() // called right before a transaction step starts (arms the injector)
+	postTx func() // called right after Commit/Rollback/Update/View returned
+
 	held     database.Tx // sequential isolation probe: a read-only tx kept open across later steps
 	heldRef  *refdb.Tx
 	heldDump string
@@ -87,7 +101,7 @@ func newSess(c cfg, fs *fsim) (*sess, error) {
 	if err != nil {
 		return nil, err
 	}
-	s := &sess{in: in, ref: refdb.New()}
+	s := &sess{in: in, ref: refdb.New(), fs: fs}
 	// setup transaction: create the user root bucket
 	err = in.db.Update(func(tx database.Tx) error {
 		_, e := tx.Metadata().CreateBucket(userRoot)
@@ -327,6 +341,11 @@ func (c *txctx) apply1(kind string, arg func(int) string) (bool, *disc) {
 			got, want, name = ic.Seek([]byte(arg(2))), rc.Seek([]byte(arg(2))), "Cursor.Seek"
 		}
 		c.lastMove = kind
+		if !rc.Predictable() {
+			// Seek beyond the last key/value pair with nested buckets present:
+			// result not specified by interface.go, nothing compared
+			return true, nil
+		}
 		return true, c.cmpCursor(name, ic, rc, got, want)
 
 	case "cn", "cp":
@@ -395,8 +414,17 @@ func (c *txctx) apply1(kind string, arg func(int) string) (bool, *disc) {
 	case "fb":
 		var i int
 		fmt.Sscan(arg(1), &i)
+		firedBefore := 0
+		if c.s.fs != nil {
+			firedBefore = c.s.fs.firedCount()
+		}
 		got, gerr := c.tx.FetchBlock(&blocks[i].hash)
 		want, wcode := c.rtx.FetchBlock(hashOf(i))
+		if gerr != nil && c.s.fs != nil && c.s.fs.firedCount() > firedBefore {
+			// an injected read fault surfaced as an error: the caller's function
+			// returns it and the transaction is rolled back
+			return true, &disc{Class: faultAbort, What: gerr.Error()}
+		}
 		if d := cmpCode("FetchBlock", gerr, wcode); d != nil {
 			return true, d
 		}
@@ -474,104 +502,106 @@ var regionAlphabet = func(l uint32) [][2]uint32 {
 
 // battery compares every read-only observation of the transaction's view with
 // the reference; in read-only transactions it also checks that every mutating
-// call is refused with ErrTxNotWritable.  It never moves the path's cursors.
-func (c *txctx) battery() *disc {
-	var d *disc
-	if p := safely(func() { d = c.battery1() }); p != "" {
-		return &disc{Class: "battery/panic", What: "panic: " + p}
+// call is refused with ErrTxNotWritable.  It never moves the path's cursors and
+// never changes state, so ALL disagreements are collected (the caller reports
+// them and may still extend the path).
+func (c *txctx) battery() []*disc {
+	var out []*disc
+	if p := safely(func() { out = c.battery1() }); p != "" {
+		out = append(out, &disc{Class: "battery/panic", What: "panic: " + p})
 	}
-	return d
+	for _, d := range out {
+		d.Class = "observe:" + d.Class
+	}
+	return out
 }
 
-func (c *txctx) battery1() *disc {
+func (c *txctx) battery1() (out []*disc) {
+	rep := func(d *disc) bool {
+		if d != nil {
+			out = append(out, d)
+		}
+		return d != nil
+	}
 	tx, rtx := c.tx, c.rtx
-	for _, path := range bucketUniverse {
+	paths := c.s.obsBuckets
+	if paths == nil {
+		paths = bucketUniverse
+	}
+	for _, path := range paths {
 		rp := splitPath(path)
 		b := implBucket(tx, path)
 		if (b != nil) != rtx.HasBucket(rp) {
-			return &disc{Class: "Bucket/existence", What: fmt.Sprintf("Bucket(%q) exists=%v, reference %v", path, b != nil, rtx.HasBucket(rp))}
+			rep(&disc{Class: "Bucket/existence", What: fmt.Sprintf("Bucket(%q) exists=%v, reference %v", path, b != nil, rtx.HasBucket(rp))})
+			continue
 		}
 		if b == nil {
 			continue
 		}
 		if b.Writable() != c.writable {
-			return &disc{Class: "Bucket.Writable/result", What: fmt.Sprintf("Writable()=%v in a writable=%v transaction", b.Writable(), c.writable)}
+			rep(&disc{Class: "Bucket.Writable/result", What: fmt.Sprintf("Writable()=%v in a writable=%v transaction", b.Writable(), c.writable)})
 		}
 		for _, k := range append(append([]string{}, keyNames...), "zz", "") {
 			got, want := b.Get([]byte(k)), rtx.Get(rp, []byte(k))
 			if !sameBytes(got, want) {
-				return &disc{Class: "Get/value", What: fmt.Sprintf("Get(%q/%q)=%s, reference %s", path, k, hx(got), hx(want))}
+				rep(&disc{Class: "Get/value", What: fmt.Sprintf("Get(%q/%q)=%s, reference %s", path, k, hx(got), hx(want))})
 			}
 		}
 		var kv []string
 		err := b.ForEach(func(k, v []byte) error { kv = append(kv, string(k)+"="+hx(v)); return nil })
 		wkv, wcode := rtx.ForEach(rp)
-		if d := cmpCode("ForEach", err, wcode); d != nil {
-			return d
-		}
 		var w []string
 		for _, p := range wkv {
 			w = append(w, string(p.K)+"="+hx(p.V))
 		}
-		if fmt.Sprint(kv) != fmt.Sprint(w) {
-			return &disc{Class: "ForEach/sequence", What: fmt.Sprintf("ForEach(%q) visits %v, reference %v", path, kv, w)}
+		if !rep(cmpCode("ForEach", err, wcode)) && fmt.Sprint(kv) != fmt.Sprint(w) {
+			rep(&disc{Class: "ForEach/sequence", What: fmt.Sprintf("ForEach(%q) visits %v, reference %v", path, kv, w)})
 		}
 		var bs []string
 		err = b.ForEachBucket(func(k []byte) error { bs = append(bs, string(k)); return nil })
 		wbs, wcode := rtx.ForEachBucket(rp)
-		if d := cmpCode("ForEachBucket", err, wcode); d != nil {
-			return d
-		}
 		w = nil
 		for _, p := range wbs {
 			w = append(w, string(p))
 		}
-		if fmt.Sprint(bs) != fmt.Sprint(w) {
-			return &disc{Class: "ForEachBucket/sequence", What: fmt.Sprintf("ForEachBucket(%q) visits %v, reference %v", path, bs, w)}
+		if !rep(cmpCode("ForEachBucket", err, wcode)) && fmt.Sprint(bs) != fmt.Sprint(w) {
+			rep(&disc{Class: "ForEachBucket/sequence", What: fmt.Sprintf("ForEachBucket(%q) visits %v, reference %v", path, bs, w)})
 		}
 		// the user callback's error is passed through
 		if len(kv) > 0 {
 			if err := b.ForEach(func(k, v []byte) error { return errSentinel }); err != errSentinel {
-				return &disc{Class: "ForEach/callback-error", What: fmt.Sprintf("callback error not returned: %v", err)}
+				rep(&disc{Class: "ForEach/callback-error", What: fmt.Sprintf("callback error not returned: %v", err)})
 			}
 		}
 		// a fresh, never positioned cursor behaves like an exhausted one
 		fc := b.Cursor()
 		if fc.Next() || fc.Key() != nil || fc.Value() != nil {
-			return &disc{Class: "Cursor.new/result", What: "unpositioned cursor: Next/Key/Value not false/nil/nil"}
+			rep(&disc{Class: "Cursor.new/result", What: "unpositioned cursor: Next/Key/Value not false/nil/nil"})
 		}
 		fc = b.Cursor()
 		if fc.Prev() || fc.Key() != nil {
-			return &disc{Class: "Cursor.new/result", What: "unpositioned cursor: Prev/Key not false/nil"}
+			rep(&disc{Class: "Cursor.new/result", What: "unpositioned cursor: Prev/Key not false/nil"})
 		}
 		if !c.writable {
-			if d := cmpCode("Put", b.Put([]byte("k1"), []byte("x")), database.ErrTxNotWritable); d != nil {
-				return d
-			}
-			if d := cmpCode("Delete", b.Delete([]byte("k1")), database.ErrTxNotWritable); d != nil {
-				return d
-			}
+			rep(cmpCode("Put", b.Put([]byte("k1"), []byte("x")), database.ErrTxNotWritable))
+			rep(cmpCode("Delete", b.Delete([]byte("k1")), database.ErrTxNotWritable))
 			_, e := b.CreateBucket([]byte("a"))
-			if d := cmpCode("CreateBucket", e, database.ErrTxNotWritable); d != nil {
-				return d
-			}
+			rep(cmpCode("CreateBucket", e, database.ErrTxNotWritable))
 			_, e = b.CreateBucketIfNotExists([]byte("a"))
-			if d := cmpCode("CreateBucketIfNotExists", e, database.ErrTxNotWritable); d != nil {
-				return d
-			}
-			if d := cmpCode("DeleteBucket", b.DeleteBucket([]byte("a")), database.ErrTxNotWritable); d != nil {
-				return d
-			}
+			rep(cmpCode("CreateBucketIfNotExists", e, database.ErrTxNotWritable))
+			rep(cmpCode("DeleteBucket", b.DeleteBucket([]byte("a")), database.ErrTxNotWritable))
 		}
 	}
 	if !c.writable {
-		if d := cmpCode("StoreBlock", tx.StoreBlock(blocks[0].b), database.ErrTxNotWritable); d != nil {
-			return d
-		}
+		rep(cmpCode("StoreBlock", tx.StoreBlock(blocks[0].b), database.ErrTxNotWritable))
 		_, e := tx.PruneBlocks(1 << 40)
-		if d := cmpCode("PruneBlocks", e, database.ErrTxNotWritable); d != nil {
-			return d
+		rep(cmpCode("PruneBlocks", e, database.ErrTxNotWritable))
+	}
+	if c.s.noBlockObs {
+		if has, err := tx.HasBlock(&blocks[0].hash); has || err != nil {
+			rep(&disc{Class: "HasBlock/result", What: fmt.Sprintf("HasBlock of a never stored block = %v, %v", has, err)})
 		}
+		return out
 	}
 	// blocks
 	var allHashes []chainhash.Hash
@@ -586,33 +616,27 @@ func (c *txctx) battery1() *disc {
 		if !whas {
 			allPresent = false
 		}
-		if d := cmpCode("HasBlock", err, wcode); d != nil {
-			return d
-		}
-		if has != whas {
-			return &disc{Class: "HasBlock/result", What: fmt.Sprintf("HasBlock(block %d)=%v, reference %v", i, has, whas)}
+		if !rep(cmpCode("HasBlock", err, wcode)) && has != whas {
+			rep(&disc{Class: "HasBlock/result", What: fmt.Sprintf("HasBlock(block %d)=%v, reference %v", i, has, whas)})
 		}
 		raw, err := tx.FetchBlock(&bl.hash)
 		wraw, wcode := rtx.FetchBlock(rh)
-		if d := cmpCode("FetchBlock", err, wcode); d != nil {
-			return d
-		}
-		if wcode == refdb.OK && !bytes.Equal(raw, wraw) {
-			return &disc{Class: "FetchBlock/bytes", What: fmt.Sprintf("block %d: %s", i, shortDiff(hx(raw), hx(wraw)))}
+		if !rep(cmpCode("FetchBlock", err, wcode)) && wcode == refdb.OK && !bytes.Equal(raw, wraw) {
+			rep(&disc{Class: "FetchBlock/bytes", What: fmt.Sprintf("block %d: %s", i, shortDiff(hx(raw), hx(wraw)))})
 		}
 		hdr, err := tx.FetchBlockHeader(&bl.hash)
 		whdr, wcode := rtx.FetchBlockHeader(rh)
-		if d := cmpCode("FetchBlockHeader", err, wcode); d != nil {
-			return d
-		}
-		if wcode == refdb.OK && !bytes.Equal(hdr, whdr) {
-			return &disc{Class: "FetchBlockHeader/bytes", What: fmt.Sprintf("block %d: %s", i, shortDiff(hx(hdr), hx(whdr)))}
+		if !rep(cmpCode("FetchBlockHeader", err, wcode)) && wcode == refdb.OK && !bytes.Equal(hdr, whdr) {
+			rep(&disc{Class: "FetchBlockHeader/bytes", What: fmt.Sprintf("block %d: %s", i, shortDiff(hx(hdr), hx(whdr)))})
 		}
 		l := uint32(len(bl.raw))
 		for _, rg := range regionAlphabet(l) {
 			reg := database.BlockRegion{Hash: &bl.hash, Offset: rg[0], Len: rg[1]}
-			got, err := tx.FetchBlockRegion(&reg)
 			want, wcode := rtx.FetchBlockRegion(rh, rg[0], rg[1])
+			if wcode == database.ErrBlockRegionInvalid && c.s.skipInvalidRegions {
+				continue
+			}
+			got, err := tx.FetchBlockRegion(&reg)
 			if codeOf(err) != wcode {
 				cls := "FetchBlockRegion/error-code"
 				if wcode == database.ErrBlockRegionInvalid {
@@ -621,48 +645,49 @@ func (c *txctx) battery1() *disc {
 						cls = "FetchBlockRegion/out-of-bounds-region-wrong-error"
 					}
 				}
-				return &disc{Class: cls, What: fmt.Sprintf("block %d (len %d) region off=%d len=%d: returned %s (%d bytes, %v), reference %s", i, l, rg[0], rg[1], codeName(codeOf(err)), len(got), err, codeName(wcode))}
-			}
-			if wcode == refdb.OK && !bytes.Equal(got, want) {
-				return &disc{Class: "FetchBlockRegion/bytes", What: fmt.Sprintf("block %d region off=%d len=%d: %s", i, rg[0], rg[1], shortDiff(hx(got), hx(want)))}
+				rep(&disc{Class: cls, What: fmt.Sprintf("block %d (len %d) region off=%d len=%d: returned %s (%d bytes, %v), reference %s", i, l, rg[0], rg[1], codeName(codeOf(err)), len(got), err, codeName(wcode))})
+			} else if wcode == refdb.OK && !bytes.Equal(got, want) {
+				rep(&disc{Class: "FetchBlockRegion/bytes", What: fmt.Sprintf("block %d region off=%d len=%d: %s", i, rg[0], rg[1], shortDiff(hx(got), hx(want)))})
 			}
 			// the plural form, combined with a valid region of the same block
 			if whas {
 				regs := []database.BlockRegion{{Hash: &bl.hash, Offset: 0, Len: 4}, reg}
 				gots, err := tx.FetchBlockRegions(regs)
 				if codeOf(err) != wcode {
-					return &disc{Class: "FetchBlockRegions/error-code", What: fmt.Sprintf("block %d regions [0,4)+[off=%d len=%d]: returned %s (%v), reference %s", i, rg[0], rg[1], codeName(codeOf(err)), err, codeName(wcode))}
-				}
-				if wcode == refdb.OK && (len(gots) != 2 || !bytes.Equal(gots[0], bl.raw[:4]) || !bytes.Equal(gots[1], want)) {
-					return &disc{Class: "FetchBlockRegions/bytes", What: fmt.Sprintf("block %d regions [0,4)+[off=%d len=%d] wrong bytes", i, rg[0], rg[1])}
+					cls := "FetchBlockRegions/error-code"
+					if wcode == database.ErrBlockRegionInvalid {
+						cls = "FetchBlockRegions/out-of-bounds-region-accepted"
+						if err != nil {
+							cls = "FetchBlockRegions/out-of-bounds-region-wrong-error"
+						}
+					}
+					rep(&disc{Class: cls, What: fmt.Sprintf("block %d regions [0,4)+[off=%d len=%d]: returned %s (%v), reference %s", i, rg[0], rg[1], codeName(codeOf(err)), err, codeName(wcode))})
+				} else if wcode == refdb.OK && (len(gots) != 2 || !bytes.Equal(gots[0], bl.raw[:4]) || !bytes.Equal(gots[1], want)) {
+					rep(&disc{Class: "FetchBlockRegions/bytes", What: fmt.Sprintf("block %d regions [0,4)+[off=%d len=%d] wrong bytes", i, rg[0], rg[1])})
 				}
 			}
 		}
 	}
 	hb, err := tx.HasBlocks(allHashes)
 	if err != nil || fmt.Sprint(hb) != fmt.Sprint(wantHas) {
-		return &disc{Class: "HasBlocks/result", What: fmt.Sprintf("HasBlocks=%v err=%v, reference %v", hb, err, wantHas)}
+		rep(&disc{Class: "HasBlocks/result", What: fmt.Sprintf("HasBlocks=%v err=%v, reference %v", hb, err, wantHas)})
 	}
 	wantAll := refdb.OK
 	if !allPresent {
 		wantAll = database.ErrBlockNotFound
 	}
 	fbs, err := tx.FetchBlocks(allHashes)
-	if d := cmpCode("FetchBlocks", err, wantAll); d != nil {
-		return d
-	}
+	okBlocks := !rep(cmpCode("FetchBlocks", err, wantAll))
 	fhs, err := tx.FetchBlockHeaders(allHashes)
-	if d := cmpCode("FetchBlockHeaders", err, wantAll); d != nil {
-		return d
-	}
-	if allPresent {
+	okHdrs := !rep(cmpCode("FetchBlockHeaders", err, wantAll))
+	if allPresent && okBlocks && okHdrs {
 		for i, bl := range blocks {
 			if !bytes.Equal(fbs[i], bl.raw) || !bytes.Equal(fhs[i], bl.raw[:refdb.HeaderLen]) {
-				return &disc{Class: "FetchBlocks/bytes", What: fmt.Sprintf("block %d differs in FetchBlocks/FetchBlockHeaders", i)}
+				rep(&disc{Class: "FetchBlocks/bytes", What: fmt.Sprintf("block %d differs in FetchBlocks/FetchBlockHeaders", i)})
 			}
 		}
 	}
-	return nil
+	return out
 }
 
 // closedProbes: every call on the handles of a finished transaction is refused.
@@ -720,11 +745,13 @@ func closedProbes(tx database.Tx, root database.Bucket, cur database.Cursor) *di
 
 type txResult struct {
 	d         *disc
-	enabled   bool   // false: the LAST op of the step is not in the alphabet at that state
-	stateKey  string // view + write set + cursors after the last op
-	commitKey string // view + write set
-	effect    bool   // the transaction changed the view
-	commitErr error  // error returned by Commit / Update (nil when not attempted)
+	enabled   bool    // false: the LAST op of the step is not in the alphabet at that state
+	stateKey  string  // view + write set + cursors after the last op
+	commitKey string  // view + write set
+	effect    bool    // the transaction changed the view
+	commitErr error   // error returned by Commit / Update (nil when not attempted)
+	faulted   bool    // an op inside failed because of an injected fault; rolled back
+	soft      []*disc // disagreements found by the read-only battery (state unaffected)
 }
 
 // runStep executes one step on both sides.  battery: run the observation battery
@@ -778,6 +805,17 @@ func (s *sess) runStep(idx int, st Step, battery bool) (res txResult) {
 
 	writable := st.writable()
 	before := s.ref.Committed().Dump()
+	if s.preTx != nil {
+		s.preTx()
+	}
+	posted := false
+	post := func() {
+		if !posted && s.postTx != nil {
+			s.postTx()
+		}
+		posted = true
+	}
+	defer post()
 	var ctx *txctx
 	var root database.Bucket
 	var anyCur database.Cursor
@@ -793,6 +831,10 @@ func (s *sess) runStep(idx int, st Step, battery bool) (res txResult) {
 				res.enabled = false
 				return nil
 			}
+			if d != nil && d.Class == faultAbort {
+				res.faulted = true
+				return nil
+			}
 			if d != nil {
 				d.Op = i
 				return d
@@ -804,10 +846,9 @@ func (s *sess) runStep(idx int, st Step, battery bool) (res txResult) {
 			anyCur = c
 		}
 		if battery {
-			if d := ctx.battery(); d != nil {
-				d.Op = len(st.Ops) - 1
-				d.Class = "observe:" + d.Class
-				return d
+			for _, d := range ctx.battery() {
+				d.Op, d.Step = len(st.Ops)-1, idx
+				res.soft = append(res.soft, d)
 			}
 		}
 		return nil
@@ -826,7 +867,7 @@ func (s *sess) runStep(idx int, st Step, battery bool) (res txResult) {
 		if p := safely(func() { d = body(tx) }); p != "" {
 			d = &disc{Class: "tx/panic", What: "panic: " + p, Op: -1}
 		}
-		abort = d != nil || !res.enabled
+		abort = d != nil || !res.enabled || res.faulted
 		if p := safely(func() {
 			if commit && !abort {
 				endErr = tx.Commit()
@@ -844,7 +885,7 @@ func (s *sess) runStep(idx int, st Step, battery bool) (res txResult) {
 		if p := safely(func() {
 			endErr = run(func(tx database.Tx) error {
 				d = body(tx)
-				abort = d != nil || !res.enabled
+				abort = d != nil || !res.enabled || res.faulted
 				if commit && !abort {
 					return nil
 				}
@@ -855,6 +896,7 @@ func (s *sess) runStep(idx int, st Step, battery bool) (res txResult) {
 		}
 	}
 
+	post()
 	// reference side of the end
 	rtx := ctx.rtx
 	if abort || !commit {
@@ -905,25 +947,47 @@ func (s *sess) runStep(idx int, st Step, battery bool) (res txResult) {
 		if !writable {
 			when = "after-readonly-tx"
 		}
+		if res.commitErr != nil {
+			when = "after-failed-commit"
+		}
 	}
-	return fail(s.checkCommitted(when))
+	d = s.checkCommitted(when)
+	if d != nil {
+		for _, op := range st.Ops {
+			if strings.HasPrefix(op, "pr:") {
+				d.Class += "/step-with-PruneBlocks"
+				break
+			}
+		}
+	}
+	return fail(d)
 }
 
 // runHistory replays a whole history on a fresh instance (every step verified);
 // it returns the session for further use unless a disagreement occurred.
 func runHistory(c cfg, h []Step, batteryLast bool) (*sess, *disc, error) {
+	return runHistoryObs(c, h, batteryLast, nil, false, "")
+}
+
+// wantSoft: when the battery of the last step reports several disagreements,
+// prefer the one of this class (replay of a specific finding).
+func runHistoryObs(c cfg, h []Step, batteryLast bool, obsBuckets []string, noBlockObs bool, wantSoft string) (*sess, *disc, error) {
 	s, err := newSess(c, nil)
 	if err != nil {
 		return nil, nil, err
 	}
+	s.obsBuckets, s.noBlockObs = obsBuckets, noBlockObs
 	for i, st := range h {
 		r := s.runStep(i, st, batteryLast && i == len(h)-1)
-		if r.d == nil && r.commitErr != nil {
-			r.d = &disc{Class: "Commit/error", What: "commit without any injected fault failed: " + r.commitErr.Error(), Step: i, Op: -1}
-			// the state must still be a legal one (transaction not applied)
-			if d2 := s.checkCommitted("after-failed-commit"); d2 != nil {
-				r.d.Class = "Commit/error+" + d2.Class
-				r.d.What += " AND " + d2.What
+		// A commit that fails WITHOUT having been applied is atomic; it is not a
+		// violation by itself (runStep already compared the state with the
+		// reference that rolled the transaction back).
+		if r.d == nil && len(r.soft) > 0 {
+			r.d = r.soft[0]
+			for _, sd := range r.soft {
+				if wantSoft != "" && sd.Class == wantSoft {
+					r.d = sd
+				}
 			}
 		}
 		if r.d != nil {
